@@ -13,6 +13,7 @@ import (
 	"sort"
 	"strings"
 	"sync"
+	"sync/atomic"
 	"syscall"
 	"unsafe"
 
@@ -210,6 +211,27 @@ func openPty() (*os.File, string, error) {
 	return m, fmt.Sprintf("/dev/pts/%d", n), nil
 }
 
+// cpuLimit: CPU seconds one invocation of the tool may use before it counts as hung - 4 s plus 2 s per megabyte under the
+// working directory (the bulk directories of 36 MB need about two seconds in all on the machine this was written on). Once a
+// hang has been seen in this process the base drops to 1 s, so that a tree that hangs on many inputs does not cost the check
+// twenty minutes.
+var hangSeen int32
+
+func cpuLimit(cwd string) uint64 {
+	var bytes int64
+	filepath.Walk(cwd, func(_ string, fi os.FileInfo, err error) error {
+		if err == nil && fi.Mode().IsRegular() {
+			bytes += fi.Size()
+		}
+		return nil
+	})
+	base := uint64(4)
+	if atomic.LoadInt32(&hangSeen) != 0 {
+		base = 1
+	}
+	return base + 2*uint64(bytes>>20)
+}
+
 // runCLIOpts runs the tool; optionally as user nobody (65534: file modes then mean something), with its output on a
 // terminal or on /dev/null instead of pipes, under another TZ, at another time.
 func runCLIOpts(o runOpts, cli, cwd string, args ...string) runResult {
@@ -268,7 +290,16 @@ func runCLIOpts(o runOpts, cli, cwd string, args ...string) runResult {
 	if o.at > 0 {
 		cmd.Env = append(cmd.Env, fmt.Sprintf("VERIF_CLOCK_UNIX=%d", o.at))
 	}
-	err := cmd.Run()
+	// a tool that spins forever on some input never gets to the remaining files: its CPU time is limited (in CPU seconds, which
+	// a slow or busy machine does not stretch; the biggest directories of the corpus need about two), and the kernel's SIGXCPU
+	// then ends it like any other fatal signal
+	err := cmd.Start()
+	if err == nil {
+		cpuLimitSeconds := cpuLimit(cwd)
+		lim := [2]uint64{cpuLimitSeconds, cpuLimitSeconds} // the Go runtime ignores SIGXCPU (soft limit); at the hard limit the kernel sends SIGKILL
+		syscall.RawSyscall6(syscall.SYS_PRLIMIT64, uintptr(cmd.Process.Pid), 0 /* RLIMIT_CPU */, uintptr(unsafe.Pointer(&lim)), 0, 0, 0)
+		err = cmd.Wait()
+	}
 	if slave != nil {
 		slave.Close()
 		<-ptyDone
@@ -284,6 +315,10 @@ func runCLIOpts(o runOpts, cli, cwd string, args ...string) runResult {
 			if ws, ok := ee.Sys().(syscall.WaitStatus); ok && ws.Signaled() {
 				r.signal = ws.Signal().String()
 				r.crashed = true
+				if ws.Signal() == syscall.SIGXCPU || ws.Signal() == syscall.SIGKILL {
+					atomic.StoreInt32(&hangSeen, 1)
+					r.stderr = "panic: hang: the tool used more CPU time on this invocation than any input of this size needs and was ended by the kernel (RLIMIT_CPU)\n" + clip(r.stderr)
+				}
 			}
 		} else {
 			r.exit = -1
